@@ -103,8 +103,11 @@ CLAIMS = {
     'C19': dict(level='proof',
         text='PROVED for all values/histories via per-operation contracts over ghost state: ProgressReporter (_set_value, increment, value/value_max setters, reset, set_complete, is_complete, __init__) keeps the invariant '
              'flag == "completion announced since the value was last set below the maximum or the maximum was last raised" and announces completion exactly when a value update reaches the maximum un-announced, with progress '
-             'emitted on every update; EventEmitter reset/__init__/set_silent/silent()/connect (view = list of registrations: append order, frame). BOUNDED only (not proved yet): emit ordering/filtering/single and unconnect, '
-             'against the view model over all operation histories of bounded depth.',
+             'emitted on every update; EventEmitter reset/__init__/set_silent/silent()/connect (view = list of registrations: append order, frame); emit over a ghost call trace (callable, registration index, return '
+             'value per call), for any number of registrations: only registered callbacks matching event and sender filter are called, every matching one is called, in registration order with the last-marked after all '
+             'others, each receives the sender and the arguments unchanged, results come back in call order, nothing is called while silenced, registrations unchanged; with single=True exactly the first matching callback in '
+             'that order is called and its result returned (an empty list when nothing matches); unconnect keeps, in order, exactly the registrations whose callback, sender filter and bound object are not among the items. '
+             'BOUNDED in addition: all operation histories of bounded depth against the view model (composition of the per-operation contracts).',
         note='Assumed: the module-level emit is the global emitter bound method (its effect is counted in ghost state); callbacks do not re-enter the emitter; reset() is not a value update.',
         assumptions=['A-NOREENTRY callbacks do not call back into the emitter', 'A-LIB _get_on_name regular expression']),
     'C20': dict(level='proof',
